@@ -5,9 +5,8 @@ import Tuc.Lemmas.Total
 
 `Tuc.Props.MainLevel` lifts C12 to every argument vector, `-e RE` included, and for that needs
 "the bag `parse_args` compiles from a modelled regex honours the contract of `find_iter`"
-(`Re.bag_ok`).  That theorem lives in `Tuc.Lemmas.RegexSpec`, which cannot be imported together
-with `Tuc.Props.C12`: both environments contain a declaration `Tuc.rangesBetweenMatches_boundaries`
-(`Tuc.Lemmas.RegexSpec` and `Tuc.Props.C07`, which C12 imports).  This file therefore repeats the
+(`Re.bag_ok`).  That theorem lives in `Tuc.Lemmas.RegexSpec`, which at the time could not be imported together
+with `Tuc.Props.C12` (a name declared twice, since renamed).  This file therefore repeats the
 first section of `Tuc.Lemmas.RegexSpec` (the proof of `Re.bag_ok`, text unchanged) under the
 namespace `Tuc.MainLevel`, importing only the regex model and `Tuc.Lemmas.Total` (which defines
 `RegexBag.OK`).  Nothing else is here.
